@@ -716,7 +716,9 @@ def check_role(repo, res):
         raise AnalysisError("from_bipartite_graph: fewer add_node_to_edge sites than expected (extractor does not recognise the code)")
     # the writer side of the same convention: tail nodes are written as node->edge arcs, head nodes as edge->node arcs
     w = fn_of(repo, "xgi.convert.bipartite_graph", "to_bipartite_graph")
-    check_bipartite_writer(res, w)
+    from .common import inline_stmt_helpers
+
+    check_bipartite_writer(res, inline_stmt_helpers(repo, w))
 
 
 def check_bipartite_writer(res, w):
